@@ -296,9 +296,20 @@ def declare(st, value, ranges=None):
         st.rng[k] = list(r)
 
 
+# instructions with an explicit memory operand: does the instruction read / write that memory? (Intel SDM vol. 2; lea and invlpg
+# only use the operand's address)
+ASM_MEM = {'lgdt': 'r', 'lidt': 'r', 'ldmxcsr': 'r', 'invpcid': 'r', 'sgdt': 'w', 'sidt': 'w', 'stmxcsr': 'w', 'lea': '', 'invlpg': '',
+           'fxsave': 'w', 'fxrstor': 'r', 'xsave': 'w', 'xrstor': 'r'}
+
+
 def asm_not_pure(chk, I, rule, files, floor):
-    """every inline-asm block in the given source files reads or changes machine / device state that other instructions
-    change, so none may be marked `pure` (rustc may then merge repeated blocks or drop one whose result is unused)"""
+    """option rules for every inline-asm block in the given source files:
+    * none may be `pure`: each reads or changes machine / device state that other instructions change (rustc may merge repeated
+      `pure` blocks or drop one whose result is unused);
+    * a block whose instruction reads memory through an operand (`lgdt [{0}]`, `invpcid {0}, [{1}]`, ...) may not be `nomem` (the
+      stores that build the operand could be dropped or reordered past it), and one that writes memory may be neither `nomem` nor
+      `readonly`."""
+    import re
     n = 0
     for f in I.facts['fns']:
         loc = f.get('loc') or ''
@@ -309,6 +320,18 @@ def asm_not_pure(chk, I, rule, files, floor):
             if t and t['k'] == 'asm':
                 n += 1
                 chk.ob(rule, '%s: asm block is not `pure`' % f['name'], 'PURE' not in t['opts'], 'options %s' % t['opts'], t['loc'], nontrivial=False)
+                tpl = ''.join((p.get('s') if p.get('s') is not None else '{%s}' % p.get('op')) for p in t['tpl'])
+                for line in re.split(r'[;\n]', tpl):
+                    line = line.strip()
+                    if not re.search(r'\[\s*\{\d+\}', line):
+                        continue
+                    mn = line.split()[0].lower() if line.split() else ''
+                    acc = ASM_MEM.get(mn, 'rw')
+                    if not acc:
+                        continue
+                    bad = [o for o in (['NOMEM'] + (['READONLY'] if 'w' in acc else [])) if o in t['opts']]
+                    chk.ob(rule, '%s: `%s` accesses memory through its operand (%s): options allow it' % (f['name'], mn, {'r': 'read', 'w': 'write', 'rw': 'read/write'}[acc]),
+                           not bad, 'options %s forbid the access the instruction makes' % t['opts'], t['loc'])
     chk.floor('%s: asm blocks scanned for `pure`' % rule, n, floor)
     return n
 
@@ -354,3 +377,17 @@ def is_call_of(chk, I, rule, fn_, target, label=None, sub=None):
     ok = len(o) == 1 and o[0].kind == 'ret' and len(calls) == 1 and calls[0][1] == target and ('%s#%d' % (target.split('::')[-1], calls[0][5])) in repr(o[0].val) and \
         not [ev for ev in o[0].st.events if ev[0] in ('write', 'asm', 'rawderef')]
     chk.ob(rule, label or ('%s is %s()' % (fn_, target.split('::')[-1])), ok, 'paths %r calls %r' % (o, [c[1] for c in calls]), fn_site(I, fn_))
+
+
+def dtp_layout(chk, rule='layout'):
+    """the operand of lgdt/lidt is a 10-byte pseudo-descriptor: 16-bit limit at byte 0, 64-bit base at byte 2 (Intel SDM 3A 2.4.1)"""
+    from spec import descriptors as D
+    lays = [l for l in chk.facts['layouts'] if l['tys'] == 'structures::DescriptorTablePointer']
+    if not lays:
+        chk.unproven(rule, 'DescriptorTablePointer', 'layout not found (anchor lost)')
+        return
+    lay = lays[0]
+    got = {f['name']: (f['off'], f['size']) for f in lay['fields']}
+    chk.ob(rule, 'DescriptorTablePointer = {limit: u16 @0, base: u64 @2}, 10 bytes', lay['size'] == D.DTP_SIZE and all(got.get(nm) == v for nm, v in D.DTP_LAYOUT.items()),
+           'found %s size %d' % (got, lay['size']))
+    chk.count('layouts')
